@@ -23,9 +23,9 @@ CHECKS = {
         "engine": "pure",
         "category": "fault_enumeration",
         "design_ref": "DESIGN.md §4 C10",
-        "technique": "property-based testing with fault enumeration: generated chains of virtual tree states polled by the real PollingEmitter, a fault at every stat/listdir position, oracle = reference diff of effective trees",
-        "text": "The real PollingEmitter is driven synchronously over a virtual file system; every (stat|listdir, path) position of a walk is failed with ENOENT/ENOTDIR/EACCES or preceded by a racing delete / dir-to-file replacement (exhaustive for the small universe, random for larger chains); per poll the multiset, classes, paths and deleted-before-created order of the queued events must equal the reference diff of the effective trees; root loss gives exactly one DirDeletedEvent and a stopped emitter.",
-        "note": "Trusted: vlib/vfs.py, the effective-tree rule and reference diff written in props/c10.py. Threads/clock of the polling loop are out of scope here (C06).",
+        "technique": "property-based testing with fault enumeration: generated chains of virtual tree states polled by the real PollingEmitter, a fault at every stat/listdir position, oracle = reference diff of effective trees; plus generated schedules (bounded DFS + random) of the emitter thread against one change and stop() on the virtual clock",
+        "text": "The real PollingEmitter is driven synchronously over a virtual file system; every (stat|listdir, path) position of a walk is failed with ENOENT/ENOTDIR/EACCES or preceded by a racing delete / dir-to-file replacement (exhaustive for the small universe, random for larger chains); per poll the multiset, classes, paths and deleted-before-created order of the queued events must equal the reference diff of the effective trees; root loss gives exactly one DirDeletedEvent and a stopped emitter; the snapshot the emitter keeps must hand back, through every accessor, the stat data of exactly the effective tree. Concurrent part: the real emitter thread under the deterministic scheduler, one change and stop() at generated times (also mid-walk): its queue holds nothing but the events of that change, each once, all of them if a full poll lay in between.",
+        "note": "Trusted: vlib/vfs.py, the effective-tree rule and reference diff written in props/c10.py; for the concurrent part vlib/dsched and a file system that serves every walk from one consistent state.",
     },
     "C15": {
         "engine": "pure",
@@ -44,8 +44,8 @@ CHECKS = {
     "C16": {
         "engine": "pure+dsched",
         "design_ref": "DESIGN.md §4 C16",
-        "technique": "property-based testing: exhaustive put/get sequences against a nondeterministic sequential reference model, generated schedules + linearizability check for the concurrent part, Hypothesis pairs for the equality/hash law",
-        "text": "All put/get_nowait sequences up to the length bound over equal-but-distinct and different (event, watch) items run on the real EventQueue and must be behaviours of the specification (FIFO, only a permitted consecutive-duplicate drop); concurrent producer/consumer histories under generated schedules must be linearizable w.r.t. the same specification; event equality must be class + five fields, with consistent hashes.",
+        "technique": "property-based testing: exhaustive put/get sequences against a nondeterministic sequential reference model, generated schedules + linearizability check for the concurrent part, Hypothesis pairs for the equality/hash law, a generated backlog of 20000-300000 events through EventEmitter.queue_event()",
+        "text": "All put/get_nowait sequences up to the length bound over equal-but-distinct and different (event, watch) items run on the real EventQueue and must be behaviours of the specification (FIFO, only a permitted consecutive-duplicate drop); concurrent producer/consumer histories under generated schedules must be linearizable w.r.t. the same specification; event equality must be class + five fields, with consistent hashes; a backlog of distinct events fed into the observer's own queue with nobody consuming comes out complete and in order.",
         "note": "A drop is permitted, not required, by the statement; a queue that never coalesces is therefore not reported. Trusted: the sequential specification in props/c16.py; for the concurrent part the substitute primitives of vlib/dsched.",
     },
     "C01": {
@@ -73,8 +73,8 @@ CHECKS = {
         "engine": "fsops",
         "category": "fault_enumeration",
         "design_ref": "DESIGN.md §3.1, §4 C07",
-        "technique": "property-based testing with injected races: generated histories (ext ops, re-used names, nested bursts, API re-scheduling, root deletion) on the real kernel plus a real racing file-system operation injected at generated call indices of the library's own lookups; oracles: no dying thread, coverage that certainly existed still reports, root deletion contract",
-        "text": "Histories that C01 excludes run against the real observer while, at a generated index of the library's inotify_add_watch / os.walk calls, the harness deletes, renames aside or re-creates the very entry about to be looked at; no library thread may end with an unhandled exception, three sentinels in the living root must never go unanswered, every start directory that kept path and inode must still report a probe, a second handler on the same watch must see it too, and deleting the root must yield exactly one DirDeletedEvent(root), nothing after it and a stopped emitter.",
+        "technique": "property-based testing with injected races: generated histories (ext ops, re-used names, nested bursts, API re-scheduling, root deletion; one in three without the pacing condition; event filters; root spellings) on the real kernel plus a real racing file-system operation injected at generated call indices of the library's own lookups; oracles: no dying thread, coverage that certainly existed still reports, root deletion contract",
+        "text": "Histories that C01 excludes run against the real observer while, at a generated index of the library's inotify_add_watch / os.walk calls, the harness deletes, renames aside, re-creates or lets blink (gone for that one call, back with a file inside) the very entry about to be looked at; no library thread may end with an unhandled exception, three sentinels in the living root must never go unanswered, every start directory that kept path and inode (every directory of the final tree when no race was injected) must still report a probe, a second handler on the same watch must see it too, and deleting the root must yield exactly one DirDeletedEvent(root), nothing after it and a stopped emitter.",
         "note": "Real kernel; the race outcome is produced by the real kernel (no faked errno). An OSError raised to the caller of schedule() because a directory vanished during the initial walk is treated as an allowed outcome (not a dying thread). Trusted: vlib/fsops.py and the proxies in props/c07.py.",
     },
     "C19": {
@@ -130,8 +130,8 @@ CHECKS = {
     "C06": {
         "engine": "dsched",
         "design_ref": "DESIGN.md §3.2, §4 C06",
-        "technique": "property-based testing over API call orders and schedules: real observer with scripted, inotify-over-simulated-kernel and polling-over-VFS emitters under a deterministic scheduler; exhaustive short call sequences, bounded DFS over two-thread programs, random programs x random schedules; deadlock / livelock / thread-leak oracle",
-        "text": "Every sequence of up to 3 (quick) / 4 (thorough) calls from {start, schedule, unschedule, unschedule_all, stop} x three emitter kinds runs under the default schedule; eight two-thread programs (with re-entrant calls from callbacks and a root that disappears) get every schedule with <= 1/2 preemptions at line granularity; random programs get random schedules. Each run ends with stop(); join() on main. A state with no runnable thread and no timed waiter while a thread is unfinished is a deadlock; an exhausted step budget a livelock; any library thread (observer, emitter, InotifyBuffer reader) alive after quiescence a leak; an uncaught exception in a library thread is reported too.",
+        "technique": "property-based testing over API call orders and schedules: real observer with scripted, inotify-over-simulated-kernel and polling-over-VFS emitters under a deterministic scheduler; exhaustive short call sequences, bounded DFS over fixed programs, random programs x random schedules, flood programs (thousands of events in one pass); deadlock / livelock / thread-leak oracle",
+        "text": "Every sequence of up to 3 (quick) / 4 (thorough) calls from {start, schedule, unschedule, unschedule_all, stop, vanish = the watched root disappears} x three emitter kinds runs under the default schedule; sixteen fixed programs (re-entrant calls from callbacks, a root that disappears, start() retried after a failing start(), a watched sub-directory moved out of the tree) get every schedule with <= 1/2 preemptions at line granularity; random programs get random schedules. Each run ends with stop(); join() on main. A state with no runnable thread and no timed waiter while a thread is unfinished is a deadlock; an exhausted step budget a livelock; any library thread (observer, emitter, InotifyBuffer reader) alive after quiescence a leak; an uncaught exception in a library thread is reported too.",
         "note": "Trusted: vlib/dsched, vlib/simkernel.py (validated against the real kernel in setup), vlib/vfs.py. Calls may raise; the final stop()+join() is part of every program, so a schedule() issued after an earlier stop() is cleaned up by the final stop().",
     },
     "C12": {
